@@ -1,5 +1,6 @@
 import NeumannModel.Common.Proto
 import NeumannModel.TwoPC.Model
+import NeumannModel.TwoPC.Recovery
 /-
   Line-protocol driver for the 2PC model (C03).  State = one `Sys`.
     init <nshards> <txTimeout> <maxConcurrent> <lockTimeout>
@@ -12,6 +13,8 @@ import NeumannModel.TwoPC.Model
     forge <tx> <sh> <y<h>:<k.k>|n|c<tx>>                   (a vote no participant produced joins the pool)
     stale <sh> <timeout> | recover <sh> <timeout>          (outside the property's alphabet)
     cvote <tx> <sh> <y<h>:<k.k>|n|c<tx>> [sim]             (coordinator-level record_vote)
+    crecover | ccomplete_commit <tx> | ccomplete_abort <tx> | cforce <tx> <0|1>
+                                                           (coordinator recovery API, Recovery.lean; outside the alphabet)
     dump
   Answer of an event: `<result> | <messages appended to the pool>`.
 -/
@@ -245,6 +248,34 @@ def twopcStep (s : Sys) (line : String) : Sys × String :=
         let s' := s.drain r.1
         (s', s!"{showRes (.voted r.2)} | {" ".intercalate ((s'.msgs.drop s.msgs.length).map showMsg)}")
     | _, _, _, _ => bad
+  | ["crecover"] =>
+    let st := (s.coord.recover s.now).2
+    let s' := s.stepX .coordRecover
+    let dec := (sortOn (·.1) s'.coord.pendingDecisions).map (fun e => s!"{e.1}:{showPhase e.2}")
+    (s', s!"rec {st.pendingPrepare} {st.pendingCommit} {st.pendingAbort} {st.timedOut} {st.completed} dec {if dec.isEmpty then "-" else ",".intercalate dec} !outside | {" ".intercalate ((s'.msgs.drop s.msgs.length).map showMsg)}")
+  | ["ccomplete_commit", t] =>
+    match t.toNat? with
+    | some t =>
+      match s.coord.completeCommit t with
+      | .ok _ => (s.stepX (.completeCommit t), "ok !outside |")
+      | .error e => (s, s!"err {showCoordErr e} !outside |")
+    | none => bad
+  | ["ccomplete_abort", t] =>
+    match t.toNat? with
+    | some t =>
+      match s.coord.completeAbort t with
+      | .ok _ => (s.stepX (.completeAbort t), "ok !outside |")
+      | .error e => (s, s!"err {showCoordErr e} !outside |")
+    | none => bad
+  | ["cforce", t, b] =>
+    match t.toNat?, b.toNat? with
+    | some t, some b =>
+      match s.coord.forceResolve t (b != 0) with
+      | .ok _ =>
+        let s' := s.stepX (.forceResolve t (b != 0))
+        (s', s!"ok !outside | {" ".intercalate ((s'.msgs.drop s.msgs.length).map showMsg)}")
+      | .error e => (s, s!"err {showCoordErr e} !outside |")
+    | _, _ => bad
   | ["dump"] => (s, showSys s)
   | _ => bad
 
